@@ -1,0 +1,8 @@
+package bip32
+
+func init() {
+	// ekliptic.Curve builds its parameters lazily on the first call to Params and without
+	// synchronisation. Force that write during package initialisation, which happens
+	// before any goroutine can use the package, so that concurrent callers only read it.
+	curve.Params()
+}
